@@ -8,6 +8,7 @@ import NakenVerif.FileIO.ElfImpl
 import NakenVerif.FileIO.ElfReadImpl
 import NakenVerif.FileIO.Uf2ReadImpl
 import NakenVerif.FileIO.TiTxtImpl
+import NakenVerif.FileIO.AmigaImpl
 import NakenVerif.Generated.Limits
 import NakenVerif.Generated.SymbolsLayout
 import Std.Data.HashMap
@@ -119,6 +120,7 @@ def handleWr (args : List String) : String :=
     else if fmt == "bin" then head ++ toHexString (BinImpl.write img)
     else if fmt == "wdc" then head ++ toHexString (WdcImpl.write img)
     else if fmt == "uf2" then head ++ toHexString (Uf2Impl.write img)
+    else if fmt == "amiga" then head ++ toHexString (AmigaImpl.write img)
     else if fmt == "elf" then
       let syms := match rest with | s :: _ => parseSyms s | [] => []
       let img := { img with bigEndian := endianOf cpu opts }
